@@ -253,7 +253,36 @@ def standin(tier, seed):
             failures.append({"what": fail, "history": {"request": lines, "no_keep_alive": nka, "response": resp_mode, "status": code}})
         if len(samples) < 3 and conn_value == "close, TE":
             samples.append({"request": lines, "second_served": served_second, "closed": r.closed})
+    # (b) "kept open exactly when the application read the whole request body": an application that answers as soon as the headers are in (an early refusal) has not read the
+    #     body; whatever the client sends next on that connection - the announced body, another request - is never served as a request
+    for version, framing, expect, body_arrives in itertools.product(["HTTP/1.1", "HTTP/1.0"], ["content-length", "chunked"], [False, True], ["with-the-next-request", "never", "split"]):
+        lines = ["POST /upload %s" % version, "Host: x", "Connection: keep-alive"]
+        body = b"GET /admin HTTP/1.1\r\nHost: x\r\n\r\n"          # the unread body looks like a request
+        if framing == "content-length":
+            lines.append("Content-Length: %d" % len(body))
+        else:
+            lines.append("Transfer-Encoding: chunked")
+            body = b"%x\r\n%s\r\n0\r\n\r\n" % (len(body), body)
+        if expect:
+            lines.append("Expect: 100-continue")
+        head = ("\r\n".join(lines) + "\r\n\r\n").encode()
+        second = b"GET /second HTTP/1.1\r\nHost: x\r\n\r\n"
+        segs = {"with-the-next-request": [head, body + second], "never": [head, second], "split": [head, body[:7], body[7:] + second]}[body_arrives]
+        r = S.run_server(segs, make_app=lambda res: S.RecordingDelegate(res, respond="headers"), eof=False)
+        evals += 1
+        started = [p[1] for (no, ev, p) in r.events if ev == "headers"]
+        nontriv.add(("early-response", version, framing, expect, body_arrives))
+        fail = None
+        if started[:1] != ["/upload"]:
+            fail = "the first request did not reach the application: %r" % (started,)
+        elif len(started) > 1:
+            fail = "after an early response (request body not read) the connection went on serving requests: %r" % (started[1:],)
+        elif not r.closed:
+            fail = "after an early response (request body not read) the connection was left open"
+        if fail and len(failures) < 3:
+            failures.append({"what": fail, "history": {"request": lines, "body": body_arrives, "response": "sent from headers_received"}})
     return {"evaluations": evals, "distinct_nontrivial": len(nontriv), "failures": failures, "samples": samples, "exhaustive": True,
             "rule": "product of version x %d Connection spellings x method x request framing x no_keep_alive x response framing (Content-Length / streamed without) x status, "
-                    "each followed by a pipelined second request, through the real HTTPServer: the second request is served iff the statement allows persistence" % len(CONN_VALUES),
+                    "each followed by a pipelined second request, through the real HTTPServer: the second request is served iff the statement allows persistence; plus 24 early-response cases "
+                    "(answer from headers_received, body unread, with / without Expect: 100-continue): nothing further is served and the connection closes" % len(CONN_VALUES),
             "wall_s": round(time.time() - t0, 2)}
